@@ -127,6 +127,9 @@ class SysHooks:
                 recv = base.key[2]
                 st.events.append(("dispatch", f.attr, recv, tuple(args), node.lineno))
                 return Sym(("dispatch", f.attr, vkey(recv), tuple(vkey(a) for a in args)))
+        # degrees are non-negative integers: `== 0`, `> 0`, `!= 0`, `>= 1` then meet in one atom
+        if isinstance(f, ast.Attribute) and f.attr in ("in_degree", "out_degree") and len(args) == 1:
+            return RF.atom(("nn", Sym(("mcall", vkey(sm.expr(f.value, st)), f.attr, (vkey(args[0]),)))))
         if fname == "DISPATCH":
             st.events.append(("dispatch", args[0], args[1], tuple(args[2:]), node.lineno))
             return Sym(("dispatch", args[0], vkey(args[1]), tuple(vkey(a) for a in args[2:])))
@@ -1192,34 +1195,82 @@ def cmp_text(node):
 
 
 def relation_table_rule(model, rep, rule):
-    """_get_parents / _get_childs: an entry per node - the predecessor (successor) list when the node has any, -1 otherwise"""
+    """_get_parents / _get_childs: an entry per node - the predecessor (successor) list when the node has any, -1 otherwise.
+    Decided on the paths of the per-node loop body: the table slot of the node is stored exactly on the paths where the
+    degree is positive, with a value derived from the graph's predecessor (successor) view of that node."""
+    from .effects import EditHooks, GuardedSummarizer
+    from .editrules import implies
     rel = model.rel("system")
+    r = roles(model)
     for mname, deg, idxs in (("_get_parents", "in_degree", "predecessor_indices"), ("_get_childs", "out_degree", "successor_indices")):
         fn = model.own_method("System", mname)
-        ok = False
-        loops = [x for x in ast.walk(fn) if isinstance(x, ast.For) and isinstance(x.target, ast.Name)]
-        for lp in loops:
-            n = lp.target.id
-            srcs = {ast.unparse(lp.iter)}
-            if isinstance(lp.iter, ast.Name):
-                srcs |= {ast.unparse(a.value) for a in ast.walk(fn) if isinstance(a, ast.Assign) and is_name(a.targets[0], lp.iter.id)}
-            if "self._get_nodes()" not in srcs:
+        if fn is None:
+            raise AnalysisError("System.%s not found" % mname)
+        fn = inline_pure_aliases_keep_parent(fn)
+        rets = [x for x in ast.walk(fn) if isinstance(x, ast.Return) and isinstance(x.value, ast.Name)]
+        if len(rets) != 1:
+            raise AnalysisError("%s does not return one table" % mname)
+        T = rets[0].value.id
+        init = [a for a in fn.body if isinstance(a, ast.Assign) and is_name(a.targets[0], T)]
+        init_ok = len(init) == 1 and "-np.ones(" in ast.unparse(init[0].value).replace(" ", "")
+        loops = []
+        for lp in fn.body:
+            if isinstance(lp, ast.For) and isinstance(lp.target, ast.Name):
+                srcs = {ast.unparse(lp.iter)}
+                if isinstance(lp.iter, ast.Name):
+                    srcs |= {ast.unparse(a.value) for a in ast.walk(fn) if isinstance(a, ast.Assign) and is_name(a.targets[0], lp.iter.id)}
+                if "self._get_nodes()" in srcs:
+                    loops.append(lp)
+        if len(loops) != 1:
+            raise AnalysisError("%s: the loop over the live nodes was not found" % mname)
+        lp = loops[0]
+        N = lp.target.id
+        hooks = EditHooks(model, r, ())
+        sm = GuardedSummarizer(hooks, Ctx())
+        env = {"self": Sym(("name", "self")), N: Sym(("name", "n")), T: Sym(("name", "TABLE"))}
+        try:
+            leaves = sm.summarize_block(lp.body, env)
+            want = sm.cond(ast.parse("self._g.%s(%s) > 0" % (deg, N), mode="eval").body, State(dict(env)))
+        except Unsupported as e:
+            raise AnalysisError("%s: %s" % (mname, e))
+        ok = init_ok
+        for lf in leaves:
+            if lf.kind == "raise":
                 continue
-            for iff in lp.body:
-                if isinstance(iff, ast.If) and ast.unparse(iff.test).replace(" ", "") in ("self._g.%s(%s)>0" % (deg, n), "self._g.%s(%s)!=0" % (deg, n), "self._g.%s(%s)>=1" % (deg, n)) and not iff.orelse:
-                    st = [a for a in iff.body if isinstance(a, ast.Assign) and isinstance(a.targets[0], ast.Subscript) and is_name(a.targets[0].slice, n) and isinstance(a.value, ast.Name)]
-                    src = [a for a in iff.body if isinstance(a, ast.Assign) and st and is_name(a.targets[0], st[-1].value.id) and ("self._g.%s(%s)" % (idxs, n)) in ast.unparse(a.value)]
-                    if st and src and iff.body[-1] is st[-1]:
-                        ok = True
-        init = any(isinstance(a, ast.Assign) and "-np.ones(" in ast.unparse(a.value).replace(" ", "") for a in ast.walk(fn))
-        if not (ok and init):
+            stores = [e for e in lf.events if e[0] == "store" and e[1][0] == "sub" and e[1][1] == Sym(("name", "TABLE"))]
+            own = [e for e in stores if vkey(e[1][2]) == vkey(Sym(("name", "n")))]
+            if len(own) != len(stores):
+                ok = False
+                continue
+            pos, _ = implies(lf.guards, want)
+            neg, _ = implies(lf.guards, Not(want))
+            if pos:
+                txt = show_value(own[-1][2]) if own else ""
+                if not own or ("%s(n)" % idxs) not in txt.replace("self._g.", ""):
+                    ok = False
+            elif neg:
+                if own:
+                    ok = False
+            else:
+                ok = False
+        if not ok:
             rep.violation(rule, "system.System.%s" % mname, "%s:%d" % (rel, fn.lineno), "the relation table does not hold, for every live node, its %s list when it has any and -1 otherwise" % ("parent" if deg == "in_degree" else "child"), "relation table " + mname)
-        rep.instance(rule, "system.System.%s relation table" % mname, "%s:%d" % (rel, fn.lineno), ok and init)
+        rep.instance(rule, "system.System.%s relation table" % mname, "%s:%d" % (rel, fn.lineno), ok, "%d paths of the node loop" % len(leaves))
+
+
+def inline_pure_aliases_keep_parent(fn):
+    from .core import inline_pure_aliases
+    fn = inline_pure_aliases(fn)
+    for node in ast.walk(fn):
+        for ch in ast.iter_child_nodes(node):
+            ch._parent = node
+    return fn
 
 
 def parents_reader_rule(model, rep, gp, reg, rule):
     rel = model.rel("system")
     ok = False
+    gp = inline_pure_aliases_keep_parent(gp)
     reads = [n for n in ast.walk(gp) if isinstance(n, ast.Subscript) and registry_of(n.value) == reg and isinstance(n.ctx, ast.Load)]
     if not reads:
         rep.violation(rule, "system.System._get_parents", "%s:%d" % (rel, gp.lineno), "the stored input order is not consulted when the parents of a multi-input node are listed", "order not read")
@@ -1241,6 +1292,13 @@ def parents_reader_rule(model, rep, gp, reg, rule):
             if isinstance(v, ast.Call) and isinstance(v.func, ast.Name) and v.func.id == "list" and len(v.args) == 1:
                 v = v.args[0]
             if isinstance(v, ast.Subscript) and registry_of(v.value) == reg and isinstance(s.targets[0], ast.Name):
+                ok = True
+        # ind = [<reg>[n][k] for k in range(len(ind))]
+        if isinstance(s, ast.Assign) and isinstance(s.targets[0], ast.Name) and isinstance(s.value, ast.ListComp) and len(s.value.generators) == 1:
+            g, e = s.value.generators[0], s.value.elt
+            if isinstance(g.target, ast.Name) and not g.ifs and isinstance(e, ast.Subscript) and is_name(e.slice, g.target.id) \
+                    and isinstance(e.value, ast.Subscript) and registry_of(e.value.value) == reg \
+                    and ast.unparse(g.iter).replace(" ", "").startswith("range(len("):
                 ok = True
     for n in ast.walk(gp):
         if isinstance(n, ast.Call) and isinstance(n.func, ast.Name) and n.func.id in ("sorted", "set", "reversed"):
